@@ -59,6 +59,16 @@ def check_transform(ctx):
                     detail_ok='a flag-%d point counts %s' % (k, '1' if k in (1, 4) else '0'))
         else:
             ctx.undecided('ALG-12', 'n_data contribution of flag %d' % k, loc(nd), 'not modelled')
+    # IEEE arithmetic on the flags themselves: the transform run once more with symbolic flags; a truth value of the flags used as a 0/1 factor (or numerator)
+    # of something that is infinite or undefined for the values an unused point may carry gives NaN there, not 0
+    from ..interp import Interp as _I, Obj as _O, symarr as _sa, num as _num
+    Is = _I(repo)
+    src_ = _O(repo.cls('source.source', 'Source'), {'_valid': None, '_flux': _sa('Fs', (W,), unit=_num(1)), '_error': _sa('Es', (W,), unit=_num(1))})
+    Is.call(repo.func('source.source', 'Source.valid@setter'), [_sa('valid', (W,), unit=_num(1))], selfv=src_)
+    Is.call(glf, [], selfv=src_)
+    ieee = [f for f in Is.findings if f.kind == 'zero-times-inf']
+    ctx.expect(not ieee, 'ALG-5', 'flags used as 0/1 factors (IEEE arithmetic)', loc(glf, ieee[0].line if ieee else None), 'no truth value of the flags multiplies or is divided by a term that can be infinite or 0/0',
+               ieee[0].msg if ieee else '', 'zero-times-inf')
     # flag 4 carrying flag 1's transformed values reproduces flag 1
     if 1 in good and 4 in good:
         r1, r4 = good[1], good[4]
@@ -231,6 +241,7 @@ MO = 'sedfitter/models.py'
 SO = 'sedfitter/source/source.py'
 
 MUST_FIRE = [
+    ('plot-only points converted with the fitted ones, their weight made zero by a truth value over the error: 0/0 is NaN for an error of zero', [(SO, "        r = self.valid == 1\n        log_flux[r] = np.log10(self.flux[r]) - 0.5 * (self.error[r] / self.flux[r]) ** 2. / np.log(10.)\n        log_error[r] = np.abs(self.error[r] / self.flux[r]) / np.log(10.)\n        weight[r] = 1. / log_error[r] ** 2.\n", "        r = (self.valid == 1) | (self.valid == 9)\n        log_flux[r] = np.log10(self.flux[r]) - 0.5 * (self.error[r] / self.flux[r]) ** 2. / np.log(10.)\n        log_error[r] = np.abs(self.error[r] / self.flux[r]) / np.log(10.)\n        weight[r] = (self.valid[r] == 1) / log_error[r] ** 2.\n")]),
     ('unused columns left out from the start, the error column not: limits read another filter\'s confidence', [(FR, "    # Calculate the 'default' chi^2 and handle special cases after\n", "    used = valid != 0\n    if not np.all(used):\n        valid, weight = valid[used], weight[used]\n        data, model = data[..., used], model[..., used]\n\n    # Calculate the 'default' chi^2 and handle special cases after\n")]),
     ('lower-limit penalty added as truth value x penalty (0 * inf is NaN at confidence 1)', [(FR, "        for j in np.where(valid == 2)[0]:\n            reset = model[:, j] < data[:, j]\n            chi2_array[:, j][reset] = -2. * np.log(1. - error[j])\n", "        for j in np.where(valid == 2)[0]:\n            reset = model[:, j] < data[:, j]\n            chi2_array[:, j] += reset * (-2. * np.log(1. - error[j]))\n")]),
     ('log-flux buffer inherits the caller dtype', [(SO, "log_flux = np.zeros(self.flux.shape, dtype=np.float64)", "log_flux = np.zeros_like(self.flux)")]),
